@@ -8,5 +8,5 @@ mod c04_gen;
 mod c04_extra;
 mod c03;
 mod c06;
-mod c07;
+pub mod c07;
 mod weights;
